@@ -100,7 +100,12 @@ func (g *gen) sp() {
 		g.gap(" ")
 	case styleTight:
 	default:
-		g.gap(g.pick(wildGaps...))
+		if g.p(60) {
+			// a blank run longer than the writer's 40-byte space buffer
+			g.gap(strings.Repeat(" ", 41+g.r.Intn(50)))
+		} else {
+			g.gap(g.pick(wildGaps...))
+		}
 		g.maybeTrivia()
 	}
 }
